@@ -12,9 +12,20 @@ ExpVar(c, name) ==
   LET ls == IF IsSfc(c, name) THEN <<0>> ELSE LevelsOf(c, name) IN
   [t \in 1..c.nt |-> [q \in 1..Len(ls) |-> ExpField(c, name, t, ls[q])]]
 
+\* the level texts the library's index-record writer produces (getvgtxts, and the
+\* levels readvardef recovers from writevardef's text)
+LevelStep ==
+  LET tr == Traces[tid] IN
+  /\ l = 0 /\ l' = 1 /\ tid' = tid /\ tr.kind = "lvltxt"
+  /\ ChkT(tr, 1, "level text writer raised: " \o tr.exc, tr.res = "ok")
+  /\ \A q \in 1..Len(tr.v5) :
+       /\ ChkT(tr, q, "generator: level is not printable in 6 characters", LevelPrintable(tr.v5[q]))
+       /\ Chk(tr, q, "6-character text of level " \o ToString(tr.v5[q]) \o " (1/100000 units)", tr.txt[q], LevelChars(tr.v5[q]))
+       /\ Chk(tr, q, "level read back from the written variable definition", tr.back[q], tr.v5[q])
+  /\ TrAccept(tr)
 TStep ==
   LET tr == Traces[tid] c == tr.cfg IN
-  /\ l = 0 /\ l' = 1 /\ tid' = tid
+  /\ l = 0 /\ l' = 1 /\ tid' = tid /\ tr.kind = "file"
   /\ Chk(tr, 1, "reference encoder: file size", tr.nbytes, c.nt * RecordsPerTime(c) * RecLen(c))
   /\ ChkT(tr, 1, "reader raised on a file laid out as the format prescribes: " \o tr.exc, tr.res = "ok")
   /\ Chk(tr, 1, "dimensions (time, z, y, x)", tr.dims, [time |-> c.nt, z |-> Len(c.levels) - 1, y |-> c.ny, x |-> c.nx])
@@ -28,5 +39,5 @@ TStep ==
        /\ Chk(tr, s, "unpacked field of " \o AllNames(c)[s] \o " (every element equals the running reconstruction of the packing)",
               tr.vars[s].v, ExpVar(c, AllNames(c)[s]))
   /\ TrAccept(tr)
-TSpec == TInit /\ [][TStep]_tvars
+TSpec == TInit /\ [][TStep \/ LevelStep]_tvars
 =================================================================================
